@@ -283,6 +283,30 @@ impl Tree {
         self.0.add(path, appenders, additive, level)
     }
 
+    /// A tree given by its shape, assembled node by node without `add` (for harnesses whose
+    /// subject is `max_log_level`, not the insertion): node 0 is the root, `parent[i] < i` is
+    /// the parent of node `i`; no appenders.  A node has at most `CAP` children.
+    pub fn from_shape(levels: &[LevelFilter], parent: &[usize]) -> Tree {
+        fn build(i: usize, levels: &[LevelFilter], parent: &[usize]) -> crate::ConfiguredLogger {
+            const NAMES: [&str; 6] = ["r", "a", "b", "c", "d", "e"];
+            let mut node = crate::ConfiguredLogger {
+                level: levels[i],
+                appenders: Vec::new(),
+                children: crate::FnvHashMap::default(),
+            };
+            let mut j = i + 1;
+            while j < levels.len() {
+                if parent[j] == i {
+                    node.children
+                        .insert(NAMES[j].to_owned(), build(j, levels, parent));
+                }
+                j += 1;
+            }
+            node
+        }
+        Tree(build(0, levels, parent))
+    }
+
     pub fn max_log_level(&self) -> LevelFilter {
         self.0.max_log_level()
     }
